@@ -143,7 +143,8 @@ _pb("C11", "contract-based deductive verification (pyvc) of filter_by_length and
 _pb("C12", "contract-based deductive verification (pyvc): lemmas over the contracts of lca and terminals (the target exists, is a constituent dominating both neighbours, and does not lie at or below the moved child) + mover step of root_attach; bounded stand-in against the set-based reference",
     "root_attach's target is never None and is a constituent dominating both neighbours (lemma over the proved lca "
     "contract); it is neither the moved child nor below it, so the re-attachment creates no cycle (lemma over the "
-    "contracts of terminals - complete and ordered - and lca, with the proved ancestor lemma); and the re-attachment step "
+    "contracts of terminals - complete and ordered - and lca, with the proved ancestor lemma); the root keeps another child "
+    "(the left neighbour hangs below one); and the re-attachment step "
     "keeps links consistent (block contract). That the result equals the documented rule is bounded only (set-based "
     "reference).",
     "lemmas + block contract proved, equality with the reference bounded; 'other'")
